@@ -327,16 +327,17 @@ func TestVerifC36(t *testing.T) {
 	add(0, 0, 1, 1)
 	add(0, 0, 2, 1)
 	add(0, 0, 1, 2)
+	add(0, 0, 2, 2)
 	add(0, 0, 1, 1, 1)
 	add(0, 2, 1, 1, 0)
 	add(1, 0, 1, 1)
 	if r.Thorough() {
-		add(0, 0, 2, 2)
 		add(0, 1, 2, 1, 1)
 		add(1, 0, 2, 1)
+		add(1, 1, 1, 2)
 		add(1, 0, 1, 1, 1)
 		add(2, 0, 1, 1)
-		add(2, 0, 1, 1, 1)
+		add(2, 0, 2, 1)
 	}
 	var scs []vsched.Scenario
 	for _, cfg := range cfgs {
